@@ -61,6 +61,22 @@ Fixpoint run_prog (T : wty) (logn : Z) (fuel : nat) (vals : list poly) (steps : 
   | _, _ => Some acc
   end.
 
+Fixpoint rounds_of (vs : list (list Z)) : list (Z * sel_bits * Z * list Z) :=
+  match vs with
+  | hd :: data :: tl => (nth 0 hd 0, bits_of 32 (nth 1 hd 0), nth 2 hd 0, data) :: rounds_of tl
+  | _ => []
+  end.
+(* which rounds the property speaks about: retrievals, and add+flush rounds that do not follow an abandoned round *)
+Fixpoint rounds_spec (nb : Z) (prev_abandoned : bool) (vs : list (list Z)) : list (option Z) :=
+  match vs with
+  | hd :: data :: tl =>
+    let kind := nth 0 hd 0 in
+    let idx := (nth 1 hd 0 / 2 ^ nth 2 hd 0) mod 2 ^ nb in
+    (if ((kind =? 0) || ((kind =? 1) && negb prev_abandoned)) && (idx <? Z.of_nat (length data))
+     then Some (nth (Z.to_nat idx) data 0) else None) :: rounds_spec nb (kind =? 2) tl
+  | _ => []
+  end.
+
 Definition fmap_of (keys vals : list Z) : fmap :=
   fold_left (fun m kv => fm_set m (fst kv) (Some (snd kv))) (combine keys vals) fm_empty.
 
@@ -166,6 +182,7 @@ Definition run_c15 (code : Z) (ps : list Z) (vs : list (list Z)) : option (list 
     | 15060 => cbt_out logn (p ps 5) (p ps 6) (p ps 7) (p ps 8) false (p ps 4) 0 (p ps 3)
     | 15061 => cbt_out logn (p ps 6) (p ps 7) (p ps 8) (p ps 9) true (p ps 4) (p ps 5) (p ps 3)
     | 15062 => cbt_out logn (p ps 6) (p ps 7) (p ps 8) (p ps 9) (negb (p ps 2 =? 0)) (p ps 4) (p ps 5) (p ps 3)
+    | 15056 => option_map (fun r => [fst r]) (r_history (rounds_of vs) (r_alloc (p ps 2)))
     | 15055 => Some [[match retrieve (p ps 2) (bits_of 32 (v0 vs 0 0)) (p ps 3) (v vs 1) with Some x => x | None => -1 end]]
     | _ => None
     end
@@ -294,6 +311,11 @@ Definition oracle_c15 (code : Z) (ps : list Z) (vs outs : list (list Z)) : Z :=
     let nb := Z.log2_up (p ps 2) in
     let idx := (v0 vs 0 0 / 2 ^ p ps 3) mod 2 ^ nb in
     if Z.of_nat (length (v vs 1)) <=? idx then 2 else ok (v0 outs 0 0 =? nth (Z.to_nat idx) (v vs 1) 0)
+  | 15056 =>
+    let nb := Z.max 1 (Z.log2_up (Z.max 1 (p ps 2))) in
+    let want := rounds_spec nb false vs in
+    ok ((length (v outs 0) =? length want)%nat
+        && forallb (fun ow => match snd ow with Some w => fst ow =? w | None => true end) (combine (v outs 0) want))
   | 15062 =>
     let msg := p ps 3 in let lgo := p ps 5 in let dnum := p ps 7 in let rank := p ps 8 in
     let e := (if p ps 2 =? 0 then 0 else msg * 2 ^ lgo) mod (2 * n) in
